@@ -6,7 +6,16 @@
  * (nfds=, allocs=, ...); areas/net.py cuts them off before the diff and checks them itself.
  *
  * Optional first token af=<k> (fail the k-th library allocation) or af=<k>p (and all later
- * ones).  In af=<k> mode a start/init/wait/reserve call that reports failure is retried once. */
+ * ones).  In af=<k> mode a start/init/wait/reserve call that reports failure is retried once.
+ *
+ * "scx" instead of "sc" selects the CONTEXT TRANSPORT for the netbuf reader / writer of the case:
+ * the objects are created with netbuf_read_init2(-1, &ctx) / netbuf_write_init2(-1, &ctx, ...), so
+ * that netbuf_read.c / netbuf_write.c take their `if (R->ssl)` / `if (W->ssl)` branches and call
+ * through netbuf_{read,write}_ssl_func / ..._cancel_func.  The transport plugged in there forwards
+ * (buf, buflen, minlen, callback, cookie) unchanged to network_read / network_write on the
+ * descriptor named by nri:<fd> / nwi:<fd> (the contract documented for the TLS layer: "behave as
+ * network_read, but take a context instead of a descriptor"); no allocation, no logging of its
+ * own.  Everything else is identical, so the log of a scenario is the same in both modes. */
 #include <sys/types.h>
 #include <sys/socket.h>
 #include <sys/wait.h>
@@ -18,6 +27,7 @@
 #include "events.h"
 #include "network.h"
 #include "netbuf.h"
+#include "netbuf_ssl_internal.h"
 #include "sock_internal.h"
 
 void * __real_malloc(size_t);
@@ -60,6 +70,30 @@ static struct netbuf_write * NW; static int nw_reserved, nfail; static uint8_t *
 static int incb;			/* depth of user callbacks */
 static int af_single;			/* af=<k> mode without 'p': retry failed registrations once */
 static int run_failed;			/* events_run returned non-zero */
+
+/* ------------------------------------------------------------------ context transport ("scx") */
+/* struct network_ssl_ctx is an incomplete type in the library headers; this is our stand-in */
+struct network_ssl_ctx { int fd; };
+static struct network_ssl_ctx ctx_r = { -1 }, ctx_w = { -1 };
+static int use_ctx;			/* this case runs the netbuf objects over the context transport */
+
+static void * ctx_read(struct network_ssl_ctx * c, uint8_t * buf, size_t buflen, size_t minlen,
+    int (* callback)(void *, ssize_t), void * cookie)
+{
+	return network_read(c->fd, buf, buflen, minlen, callback, cookie);
+}
+static void ctx_read_cancel(void * cookie) { network_read_cancel(cookie); }
+static void * ctx_write(struct network_ssl_ctx * c, const uint8_t * buf, size_t buflen, size_t minlen,
+    int (* callback)(void *, ssize_t), void * cookie)
+{
+	return network_write(c->fd, buf, buflen, minlen, callback, cookie);
+}
+static void ctx_write_cancel(void * cookie) { network_write_cancel(cookie); }
+static void ctx_install(void)
+{
+	netbuf_read_ssl_func = ctx_read; netbuf_read_ssl_cancel_func = ctx_read_cancel;
+	netbuf_write_ssl_func = ctx_write; netbuf_write_ssl_cancel_func = ctx_write_cancel;
+}
 
 static long num(const char * s, int * bad) { char * e; long v = strtol(s, &e, 10); if (*s == 0 || *e != 0 || v < 0 || v > 2000000) *bad = 1; return v; }
 
@@ -229,7 +263,9 @@ static void exec_op(int i)
 		if (NR != NULL) { fk_log("skip"); break; }
 	nri_again:
 		fk_fail_hit = 0;
-		NR = netbuf_read_init((int)o->a); nr_fd = (int)o->a;
+		if (use_ctx) { ctx_r.fd = (int)o->a; NR = netbuf_read_init2(-1, &ctx_r); }
+		else NR = netbuf_read_init((int)o->a);
+		nr_fd = (int)o->a;
 		fk_log("nri=%s", NR ? "ok" : "null");
 		if (hit(i) && NR == NULL && af_single && tries++ == 0) goto nri_again;
 		break;
@@ -260,7 +296,8 @@ static void exec_op(int i)
 		if (NW != NULL) { fk_log("skip"); break; }
 	nwi_again:
 		fk_fail_hit = 0;
-		NW = netbuf_write_init((int)o->a, cb_fail, NULL);
+		if (use_ctx) { ctx_w.fd = (int)o->a; NW = netbuf_write_init2(-1, &ctx_w, cb_fail, NULL); }
+		else NW = netbuf_write_init((int)o->a, cb_fail, NULL);
 		fk_log("nwi=%s", NW ? "ok" : "null");
 		if (hit(i) && NW == NULL && af_single && tries++ == 0) goto nwi_again;
 		break;
@@ -434,7 +471,10 @@ static void run_case(char * line)
 		char * e; fk_fail_at = strtol(tok[0] + 3, &e, 10); fk_fail_persist = (*e == 'p'); af_single = !fk_fail_persist && fk_fail_at > 0;
 		t0 = 1;
 	}
-	if (n - t0 >= 1 && strcmp(tok[t0], "sc") == 0) case_sc(tok + t0 + 1, n - t0 - 1);
+	if (n - t0 >= 1 && (strcmp(tok[t0], "sc") == 0 || strcmp(tok[t0], "scx") == 0)) {
+		use_ctx = (tok[t0][2] == 'x');
+		case_sc(tok + t0 + 1, n - t0 - 1);
+	}
 	else if (n - t0 == 4 && strcmp(tok[t0], "conn") == 0 && (strcmp(tok[t0 + 1], "0") == 0 || strcmp(tok[t0 + 1], "1") == 0))
 		case_conn(tok[t0 + 1], tok[t0 + 2], tok[t0 + 3]);
 	else fk_log("bad-case");
@@ -444,6 +484,7 @@ int main(void)
 {
 	char ** lines = NULL; size_t nl = 0, cap = 0, i; char * line;
 	setvbuf(stdout, NULL, _IONBF, 0);
+	ctx_install();
 	while ((line = drv_getline()) != NULL) {
 		if (nl == cap) { cap = cap ? cap * 2 : 256; lines = __real_realloc(lines, cap * sizeof(char *)); }
 		lines[nl++] = strdup(line);
